@@ -19,6 +19,10 @@ def run_bundle(binp, bundle, timeout, deadline=None):
     if deadline is not None and t0 > deadline:
         # the tier's wall-clock budget is spent: the bundle is NOT run (listed in evidence, never counted as decided)
         return bundle, [], "skipped: wall budget of the tier spent before this bundle started", 0.0
+    if deadline is not None:
+        # a bundle that is still running two minutes after the budget is spent is stopped; the sub-cases it has already
+        # reported are kept, the others are listed as incomplete (timeout)
+        timeout = min(timeout, max(30.0, deadline + 120.0 - t0))
     env = dict(os.environ)
     if bundle.get("_solver"):
         env["SYMX_SOLVER"] = bundle["_solver"]
@@ -30,7 +34,7 @@ def run_bundle(binp, bundle, timeout, deadline=None):
         if isinstance(out, bytes):
             out = out.decode("utf-8", "replace")
         recs = _parse(out)
-        return bundle, recs, "timeout after %ds" % timeout, time.time() - t0
+        return bundle, recs, "timeout after %ds (bundle stopped: per-bundle limit or wall budget of the tier)" % timeout, time.time() - t0
     recs = _parse(p.stdout)
     err = None
     if p.returncode != 0:
